@@ -163,8 +163,6 @@ def random_fp_history(rng, T, p, R, D, length, kmax=50):
         regs.append([(i, rng.randint(1, p - 1) if p > 1 else 1) for i in idx])
     lines = [fp_reset_line(T, p, regs)]
     ops = ['Unit', 'Copy', 'Assign', 'Plus', 'Plus', 'PlusAssign', 'PlusAssign', 'Scale', 'Scale', 'ScaleAssign', 'Dot', 'Dot', 'Clear']
-    if skewed:
-        ops = ops + ['Dot'] * 8 + ['DotSet'] * 6 + ['FromSet'] * 3
     for _ in range(length):
         op = rng.choice(ops)
         d, a, b = rng.randrange(R), rng.randrange(R), rng.randrange(R)
